@@ -135,7 +135,7 @@ func freeRun(run int, deadline time.Time) (*tv.Batch, int, bool) {
 			default:
 				if !armed {
 					armed = true
-					timer.Reset(3 * time.Second)
+					timer.Reset(10 * time.Second)
 				}
 				select {
 				case v := <-got:
